@@ -14,6 +14,11 @@ FIRST_MISSED = {
     "C14b": "missed at first; caught after the non-dyadic float stream (oracle only)",
     "C01c": "missed at first; caught after prior models were given the very same externally built objects",
     "C13c": "missed at first by C13 (C12 caught it); caught after agent churn between two collects of one step",
+    "C01e": "missed at first; caught after nearly-full-grid relocation scripts measured after address-shifting prior histories (+ T1 scan for unordered iteration sites)",
+    "C09e": "missed at first; caught after the driver used agents whose truth value is False",
+    "C12e": "missed at first; caught after frame cells were required to be the very same value and type (Decimal, Fraction, big ints, ...)",
+    "C16e": "missed at first; caught after hierarchies with observables on mixins placed after HasObservables in the MRO",
+    "C20e": "missed at first; caught after redraws reused the same portrayal dict objects across layer writes",
 }
 for d in sorted(glob.glob(os.path.join(VERIF, "seeded", "*", ""))):
     n = os.path.basename(d.rstrip("/"))
